@@ -504,7 +504,9 @@ pub proof fn lemma_slash_done(sm: St, st: St, s1: St, seq: Seq<Addr>, v: Seq<cha
             && wipe == (i1.stake.u == 0) && i1.stakers@ == (if wipe { Set::<Addr>::empty() } else { im.stakers@ }),
         q1@.len() == queue_of(sm).len(),
         forall|i: int| 0 <= i < q1@.len() ==> #[trigger] q1@[i] == slash_entry(queue_of(sm)[i], v, rem),
-        s1 == st.insert(k_queue(), q1.ser()).insert(k_vinfo(v), i1.ser()),
+        // the two final writes, in either order
+        s1.contains_key(k_queue()) && s1[k_queue()] == q1.ser() && s1.contains_key(k_vinfo(v)) && s1[k_vinfo(v)] == i1.ser(),
+        forall|k: Seq<u8>| k != k_queue() && k != k_vinfo(v) ==> #[trigger] same_at(s1, st, k),
     ensures slashed(sm, s1, v, rem), swf(s1)
 {
     let im = get_vinfo(sm, v)->Ok_0->0;
@@ -515,9 +517,11 @@ pub proof fn lemma_slash_done(sm: St, st: St, s1: St, seq: Seq<Addr>, v: Seq<cha
         assert(seq.to_set().contains(d));
         let j = choose|j: int| 0 <= j < seq.len() && seq[j] == d;
         lemma_keys_disjoint(d, v, v);
+        assert(same_at(s1, st, k_stake(d, v)));
         if !wipe { assert(scaled(sm, st, seq[j], v, rem)); }
     }
     assert forall|k: Seq<u8>| k != k_vinfo(v) && k != k_queue() && !is_stake_key(k, im.stakers@, v) implies #[trigger] same_at(s1, sm, k) by {
+        assert(same_at(s1, st, k));
         assert(same_at(st, sm, k));
     }
     assert(slash_frame(sm, s1, v, im.stakers@));
